@@ -152,6 +152,18 @@ inline void build_function(verif::Tape &t, FuncProgram &fp, unsigned caps) {
     else
       p.cfg->set_exit(p.labels.back());
   }
+  // The function returns at the end of its exit block. Whether an exit block may have
+  // successors is documented nowhere (no front end produces one, and every transformation
+  // treats what follows the exit differently), so such CFGs are outside the domain of
+  // C17/C18: the outgoing edges of the chosen exit are removed (construction, not rejection).
+  {
+    block_t &x = p.cfg->get_node(p.cfg->exit());
+    std::vector<label_t> succs;
+    for (auto const &n : boost::make_iterator_range(x.next_blocks()))
+      succs.push_back(n);
+    for (auto &n : succs)
+      x -= p.cfg->get_node(n);
+  }
   // assertions an interval analysis can prove (so that lower_safe_assertions has work):
   // appended to decoded blocks as  x := c / assume(x <= c)  followed by an assertion
   if (caps & CAP_ASSERT) {
